@@ -210,14 +210,16 @@ def across_upgrade(fl: int, n0: int, n1: int, n2: int, n3: int, n4: int, pending
 
 
 @cond(quick=dict(timeout=170, parts=dict(FL=[0, 1])), thorough=dict(timeout=600, parts=dict(FL=[0, 1])))
-def across_upgrade_backpressure(fl: int, n0: int, n1: int, n2: int, n3: int, n4: int, pending: bool, late: bool, two: bool) -> str:
+def across_upgrade_backpressure(fl: int, n0: int, n1: int, n2: int, n3: int, n4: int, pending: bool, late: bool, two: bool,
+                                c0: int, c1: int) -> str:
     """
-    pre: fl == P.FL and 0 <= n0 <= 1 and 0 <= n1 <= 2 and 0 <= n2 <= 1 and 0 <= n3 <= 1 and 0 <= n4 <= 2
+    pre: fl == P.FL and 0 <= n0 <= 1 and 0 <= n1 <= 2 and 0 <= n2 <= 1 and 0 <= n3 <= 1 and 0 <= n4 <= 2 and 0 <= c0 <= 1 and 0 <= c1 <= 1
     post: _ == ''
     """
     # the handshake completes while the new WebSocket is under back-pressure: the server's writes (NOOP, the packets held back
     # during the upgrade) stay in flight while the application makes its next sends
-    return verdict(untraced(_upgrade_scenario, fl, n0, n1, n2, n3, n4, pending, late, 0, two, 0, 0, 0, True))
+    # (c0, c1: the first two scheduling decisions among ready tasks - which of the writer and the sender runs first matters)
+    return verdict(untraced(_upgrade_scenario, fl, n0, n1, n2, n3, n4, pending, late, 0, two, c0, c1, 0, True))
 
 
 def _single_transport(fl, ws, n_a, n_b, n_c, overlap, small=False):
